@@ -123,6 +123,14 @@ var c01Queries = []c01Query{
 	/* 14 */ {sql: "SELECT t.a FROM t.sym t ORDER BY t.a LIMIT 1", sortCols: []int{0}, sortDirs: []int{1}, expected: func(rows [][]octosql.Value) []expRow {
 		return rankLimit(rows, func(r []octosql.Value) octosql.Value { return r[0] }, 1, func(r []octosql.Value) []octosql.Value { return []octosql.Value{r[0]} })
 	}},
+	// 15: three-valued AND under a negation (NULL AND FALSE is FALSE, so NOT of it is TRUE)
+	/* 15 */ {sql: "SELECT t.a, t.b FROM t.sym t WHERE NOT (t.a > 1 AND t.b > 1)", expected: func(rows [][]octosql.Value) []expRow {
+		return all(rows, func(r []octosql.Value) expRow {
+			aFalse := zzverif.And(!isNull(r[0]), r[0].Int <= 1)
+			bFalse := zzverif.And(!isNull(r[1]), r[1].Int <= 1)
+			return expRow{[]octosql.Value{r[0], r[1]}, zzverif.Or(aFalse, bFalse)}
+		})
+	}},
 }
 
 func expCount(exp []expRow, x []octosql.Value, distinct bool) int {
